@@ -194,7 +194,8 @@ def run(tier, seed):
             for cu in (None, True, False):
                 for allow in (False, True):
                     for fail in [None] + [f for f, (_, ks) in FAILS.items() if kind in ks]:
-                        for wait in ((False, True) if fail != "incomplete" and tier == "thorough" else (False,)):
+                        for wait in ((False, True) if fail != "incomplete" and (tier == "thorough" or (cu is None and not allow))
+                                     else (False,)):
                             # bare bool / str results have no NaN-like placeholder (None): the clean-up rule must
                             # not depend on that
                             for rtype in (("int", "bool", "str") if kind in ("none", "Runner") else ("int",)):
